@@ -27,6 +27,9 @@ type Op struct {
 	Kn  int    `json:"kn,omitempty"` // k for knn
 	// F: fractional offsets added to x, y, w, h of Box (and to the query point) in float histories
 	F [4]float64 `json:"f,omitempty"`
+	// Empty: the inserted object is a *Bounds without any point (geom.NewBounds()): it is stored and counted, can be
+	// deleted, and intersects no query
+	Empty bool `json:"empty,omitempty"`
 }
 
 // History is the pure-data case.
@@ -106,6 +109,9 @@ func GenHistory(t *rapid.T, queries string) History {
 			}
 			op.K, op.Box = "ins", [4]int{hx - r, hy - r, 2 * r, 2 * r}
 		case "ins":
+			if h.Kind == "bounds" && queries == "search" && rapid.IntRange(0, 39).Draw(t, "emptyobj") == 17 { // not for nearest-neighbour histories: an object without points has no distance
+				op.Empty = true
+			}
 			op.Box = [4]int{rapid.IntRange(0, grid).Draw(t, "x"), rapid.IntRange(0, grid).Draw(t, "y"), rapid.IntRange(0, 3).Draw(t, "w"), rapid.IntRange(0, 3).Draw(t, "h")}
 		case "dup", "del", "delabsent":
 			op.Idx = rapid.IntRange(0, 1000).Draw(t, "idx")
@@ -307,6 +313,10 @@ func (m *Model) Step(op Op, ev *Events, check bool) string {
 	switch op.K {
 	case "ins":
 		o := m.mk(op.Box, op.F)
+		if op.Empty && m.Kind == "bounds" {
+			m.next++
+			o = geom.NewBounds()
+		}
 		t.Insert(o)
 		m.Live = append(m.Live, o)
 		if ev.Drained {
